@@ -152,19 +152,21 @@ Lemma nth_error_skipn {A} (l : list A) n m x : nth_error (skipn n l) m = Some x 
 Proof. revert l. induction n as [|n IH]; intros [|a l] H; cbn in *; auto; try (destruct m; discriminate). Qed.
 
 (** [start_ok] from the encoder's run facts *)
-Lemma start_ok_of_facts c2v opp nf Q Y B : length c2v = 3 * nf -> opp_ok c2v opp ->
+Lemma start_ok_of_idx c2v opp nf Q Y B : length c2v = 3 * nf -> opp_ok c2v opp ->
   (forall j, j < length Q -> nth j Q 0 < 3 * nf /\ is_degenerated c2v (nth j Q 0 / 3) = false) ->
   NoDup (map (fun c => c / 3) Q) ->
   (forall f, f < nf -> is_degenerated c2v f = false -> In f (map (fun c => c / 3) Q)) ->
-  length Y + cnt_true B = length Q -> ~ In 1%Z Y ->
-  RUNS opp (IFc' c2v opp nf) (rev B) (rev (skipn (length Y) Q)) (firstn (length Y) Q) Y ->
+  length Y + cnt_true B = length Q ->
+  length (tops Y (length Y)) = length B ->
+  (forall i j, nth_error (tops Y (length Y)) i = Some j -> nth i B false = true ->
+    j < length Y /\
+    exists ic, nth_error (skipn (length Y) Q) (cnt_true (firstn i B)) = Some ic /\
+               opp_at opp ic = Some (nth j (firstn (length Y) Q) 0) /\ IFc' c2v opp nf ic) ->
   (forall m1 m2, m1 < m2 -> length Y + m2 < length Q -> forall x1 x2, x1 < 3 * nf -> x2 < 3 * nf ->
      x1 / 3 = nth (length Y + m1) Q 0 / 3 -> x2 / 3 = nth (length Y + m2) Q 0 / 3 -> vtx c2v x1 <> vtx c2v x2) ->
   start_ok c2v opp nf Q Y B.
 Proof.
-  intros Hlen OK Qrng Qnd Comp L NS R DJ. set (ns := length Y) in *.
-  destruct (RUNS_idx _ _ _ _ _ _ R NS) as (_ & _ & _ & LT & HF). fold ns in LT, HF.
-  rewrite rev_length in LT. rewrite !rev_involutive in HF.
+  intros Hlen OK Qrng Qnd Comp L LT HF DJ. set (ns := length Y) in *.
   unfold start_ok. fold ns. split; auto. split; auto.
   intros i j Ej Bi. cbv zeta. destruct (HF i j Ej Bi) as (Hj & ic & A1 & A2 & A3).
   set (m0 := cnt_true (firstn i B)) in *. set (m := ns + m0).
@@ -198,6 +200,22 @@ Proof.
   split; [apply CI; lia|]. split; apply CI; lia.
 Qed.
 
+Lemma start_ok_of_facts c2v opp nf Q Y B : length c2v = 3 * nf -> opp_ok c2v opp ->
+  (forall j, j < length Q -> nth j Q 0 < 3 * nf /\ is_degenerated c2v (nth j Q 0 / 3) = false) ->
+  NoDup (map (fun c => c / 3) Q) ->
+  (forall f, f < nf -> is_degenerated c2v f = false -> In f (map (fun c => c / 3) Q)) ->
+  length Y + cnt_true B = length Q -> ~ In 1%Z Y ->
+  RUNS opp (IFc' c2v opp nf) (rev B) (rev (skipn (length Y) Q)) (firstn (length Y) Q) Y ->
+  (forall m1 m2, m1 < m2 -> length Y + m2 < length Q -> forall x1 x2, x1 < 3 * nf -> x2 < 3 * nf ->
+     x1 / 3 = nth (length Y + m1) Q 0 / 3 -> x2 / 3 = nth (length Y + m2) Q 0 / 3 -> vtx c2v x1 <> vtx c2v x2) ->
+  start_ok c2v opp nf Q Y B.
+Proof.
+  intros Hlen OK Qrng Qnd Comp L NS R DJ.
+  destruct (RUNS_idx _ _ _ _ _ _ R NS) as (_ & _ & _ & LT & HF).
+  rewrite rev_length in LT. rewrite !rev_involutive in HF.
+  apply start_ok_of_idx; auto.
+Qed.
+
 Lemma efact_script c2v opp nf Q Y k y : length c2v = 3 * nf -> length Y <= length Q ->
   (forall f, f < nf -> is_degenerated c2v f = false -> In f (map (fun c => c / 3) Q)) ->
   nth_error Y k = Some y -> is_CERL y = true ->
@@ -208,7 +226,7 @@ Proof.
   assert (NV : forall e, nvis Q k (opp_at opp e) -> match opp_at opp e with Some o => forall j', j' < k -> nth j' Q 0 / 3 <> o / 3 | None => True end).
   { intros e H. destruct (opp_at opp e) as [o0|]; auto. }
   unfold is_CERL in Cl.
-  destruct Dd as [(D1 & D2 & D3)|[(D1 & D2 & D3 & D4)|[(D1 & D2 & D3 & D4)|[(D1 & D2 & D3 & D4)|D1]]]]; subst y; try discriminate.
+  destruct Dd as [(D1 & D2 & D3)|[(D1 & D2 & D3 & D4)|[(D1 & D2 & D3 & D4)|[(D1 & D2 & D3 & D4)|(D1 & D2)]]]]; subst y; try discriminate.
   - left. repeat split; auto; apply NV; auto.
   - right. left. repeat split; auto; apply NV; auto.
   - right. right. left. repeat split; auto; apply NV; auto.
@@ -361,3 +379,288 @@ Corollary ebsim_trace_ERL c2v opp nf nv niso ndeg o tr rm maxv :
     exists d, D.sym_loop NC maxv rm (Z.of_nat ns) (firstn (ns - i) (rev (o_syms o))) 0 (D.init_st []) = D.Ok d /\
               sim2 c2v opp (o_pcc o) (rev (o_syms o)) ns NC maxv cf d.
 Proof. intros. apply (ebsim_trace_CERL c2v opp nf nv niso ndeg); auto. apply class_ERL_CERL; auto. Qed.
+
+(** * S without split events: the decoder's stack from the encoder's trace.
+    [ndp]: the stack discipline of the trace WITHOUT pops of already visited entries ("no dead pop"): after a symbol the next
+    configuration's stack is exactly what the symbol leaves (E: pop; S: right and left corner on top; C/R/L: unchanged); the
+    first configuration starts with the stack [corner], the last one ends with it (ONE run: one edge-connected component).
+    Decidable on the trace; every encoding with a split event violates it. *)
+Definition the (o : option nat) : nat := match o with Some x => x | None => 0 end.
+
+Definition ndp (opp : list (option nat)) (tr : list cfg) : Prop :=
+  (forall cf, nth_error tr 0 = Some cf -> stack (cf_st cf) = [Some (cf_corner cf)]) /\
+  (forall cf, nth_error tr (length tr - 1) = Some cf -> tl (stack (cf_st cf)) = []) /\
+  forall i cf cf', nth_error tr i = Some cf -> nth_error tr (S i) = Some cf' ->
+    stack (cf_st cf') = pushed opp (hd 0%Z (syms (cf_st cf'))) (cf_corner cf) (stack (cf_st cf)).
+
+Lemma nth_skipn' {A} (l : list A) d : forall n i, nth i (skipn n l) d = nth (n + i) l d.
+Proof. induction l as [|a l IH]; intros [|n] i; cbn [skipn nth Nat.add]; auto. destruct i; auto. Qed.
+
+Lemma firstn_cons_inv {A} n (l : list A) a r : firstn (S n) l = a :: r -> exists l', l = a :: l' /\ firstn n l' = r.
+Proof. destruct l as [|b l]; cbn; intros H; inversion H; subst. eauto. Qed.
+
+Section Stk.
+Variables (opp : list (option nat)) (Q : list nat) (osyms : list Z) (tr : list cfg).
+Let ns := length osyms.
+Let Y := rev osyms.
+Hypothesis Ltr : length tr = ns.
+Hypothesis Coh : forall i cf, nth_error tr i = Some cf ->
+  syms (cf_st cf) = rev (firstn i osyms) /\ cf_corner cf :: pcc (cf_st cf) = skipn (ns - 1 - i) (firstn ns Q).
+Hypothesis LQ : ns <= length Q.
+Hypothesis Steps : forall i cf cf', nth_error tr i = Some cf -> nth_error tr (S i) = Some cf' -> tstep opp cf cf'.
+Hypothesis NDP : ndp opp tr.
+
+Let cfg0 := mk_cfg 0 (mk_est [] [] [] 0%Z 0 [] [] [] [] []).
+Let cfi (i : nat) : cfg := nth i tr cfg0.
+
+Lemma cfi_nth i : i < ns -> nth_error tr i = Some (cfi i).
+Proof. intros H. apply nth_error_nth'. lia. Qed.
+
+Lemma corner_Q i : i < ns -> cf_corner (cfi i) = nth (ns - 1 - i) Q 0.
+Proof.
+  intros H. destruct (Coh i _ (cfi_nth i H)) as [_ C].
+  assert (E : nth 0 (cf_corner (cfi i) :: pcc (cf_st (cfi i))) 0 = nth 0 (skipn (ns - 1 - i) (firstn ns Q)) 0) by (rewrite C; auto).
+  cbn [nth] in E. rewrite E. rewrite nth_skipn'. rewrite Nat.add_0_r. rewrite <- (firstn_skipn ns Q) at 2. rewrite app_nth1; auto.
+  rewrite firstn_length_le; lia.
+Qed.
+
+(** the symbol emitted at configuration i *)
+Lemma sym_at i : S i < ns -> hd 0%Z (syms (cf_st (cfi (S i)))) = nth i osyms 0%Z.
+Proof.
+  intros H. destruct (Coh (S i) _ (cfi_nth (S i) H)) as [C _]. rewrite C.
+  rewrite (firstn_S_nth osyms i (nth i osyms 0%Z)) by (apply nth_error_nth'; unfold ns in H; lia).
+  rewrite rev_app_distr. reflexivity.
+Qed.
+Lemma Y_at k : k < ns -> nth_error Y k = Some (nth (ns - 1 - k) osyms 0%Z).
+Proof.
+  intros H. unfold Y. rewrite nth_error_nth' with (d := 0%Z) by (rewrite rev_length; auto). f_equal.
+  rewrite rev_nth by auto. f_equal. unfold ns. lia.
+Qed.
+
+(** every stack of the trace is non-empty and holds valid corners only *)
+Lemma stacks_some : forall i, i < ns -> stack (cf_st (cfi i)) <> [] /\ Forall (fun o => o <> None) (stack (cf_st (cfi i))).
+Proof.
+  destruct NDP as (N0 & _ & N1). induction i as [|i IH]; intros Hi.
+  - rewrite (N0 _ (cfi_nth 0 Hi)). split; [discriminate|]. constructor; [discriminate|constructor].
+  - destruct (IH ltac:(lia)) as [A B].
+    pose proof (Steps i _ _ (cfi_nth i ltac:(lia)) (cfi_nth (S i) Hi)) as [T1 T2].
+    pose proof (N1 i _ _ (cfi_nth i ltac:(lia)) (cfi_nth (S i) Hi)) as E.
+    set (y := hd 0%Z (syms (cf_st (cfi (S i))))) in *.
+    assert (Tl : Forall (fun o => o <> None) (tl (stack (cf_st (cfi i))))) by (destruct (stack (cf_st (cfi i))); [constructor|inversion B; auto]).
+    unfold pushed in E. destruct (y =? 7)%Z eqn:E7.
+    + apply Z.eqb_eq in E7. specialize (T2 (or_introl E7)). split; [intro X; rewrite X in T2; discriminate|]. rewrite E. auto.
+    + destruct (y =? 1)%Z eqn:E1.
+      * apply Z.eqb_eq in E1. rewrite E. split; [discriminate|].
+        destruct T1 as [(y' & dead & L1 & _ & L3)|(y' & L1 & L2)].
+        -- assert (y' = y) by (unfold y; rewrite L1; reflexivity). subst y'. destruct (L3 E1). constructor; auto.
+        -- rewrite L2 in E. discriminate.
+      * rewrite E. auto.
+Qed.
+
+Definition nthQ (j : nat) : nat := nth j Q 0.
+
+(** the decoder's stack after k+1 symbols starts with the corner of configuration ns-1-k followed by its stack below the top *)
+Lemma tops_stack : forall k, k < ns ->
+  let cf := cfi (ns - 1 - k) in
+  map nthQ (tops Y (S k)) = cf_corner cf :: map the (tl (stack (cf_st cf))).
+Proof.
+  destruct NDP as (N0 & NL & N1). induction k as [|k IH]; intros Hk cf.
+  - (* the last symbol *)
+    assert (T1 : tops Y 1 = [0]).
+    { rewrite (tops_S Y 0 _ (Y_at 0 Hk)). cbn [tops]. destruct (_ =? 7)%Z; auto. destruct (_ =? 1)%Z; auto. }
+    rewrite T1. cbn [map]. unfold cf. replace (ns - 1 - 0) with (ns - 1) by lia.
+    assert (Hl : ns - 1 < ns) by lia.
+    pose proof (NL _ ltac:(rewrite Ltr; apply (cfi_nth _ Hl))) as Tl0.
+    destruct (stacks_some _ Hl) as [Ne _]. destruct (stack (cf_st (cfi (ns - 1)))) as [|t r] eqn:Es; [congruence|].
+    cbn [tl] in Tl0. subst r. cbn. unfold nthQ. rewrite (corner_Q _ Hl). f_equal. f_equal. lia.
+  - set (i := ns - 1 - S k) in *.
+    assert (Hi : i < ns) by (unfold i; lia). assert (Hi' : S i < ns) by (unfold i; lia).
+    assert (Ei : ns - 1 - k = S i) by (unfold i; lia).
+    specialize (IH ltac:(lia)). cbv zeta in IH. rewrite Ei in IH.
+    set (cf' := cfi (S i)) in *. fold cf.
+    pose proof (Steps i _ _ (cfi_nth i Hi) (cfi_nth (S i) Hi')) as [T1 T2]. fold cf cf' in T1, T2.
+    pose proof (N1 i _ _ (cfi_nth i Hi) (cfi_nth (S i) Hi')) as E. fold cf cf' in E.
+    assert (Ey : hd 0%Z (syms (cf_st cf')) = nth i osyms 0%Z) by (apply sym_at; auto).
+    rewrite Ey in E, T2.
+    assert (EY : nth_error Y (S k) = Some (nth i osyms 0%Z)) by (rewrite (Y_at (S k) Hk); reflexivity).
+    rewrite (tops_S Y (S k) _ EY).
+    destruct (stacks_some _ Hi) as [Ne As]. fold cf in Ne, As.
+    assert (Ec : nthQ (S k) = cf_corner cf) by (unfold nthQ, cf; rewrite (corner_Q _ Hi); f_equal; unfold i; lia).
+    set (y := nth i osyms 0%Z) in *. unfold pushed in E.
+    destruct (y =? 7)%Z eqn:E7.
+    + cbn [map]. rewrite Ec. f_equal. apply Z.eqb_eq in E7.
+      specialize (T2 (or_introl E7)). rewrite E in IH, T2. rewrite IH.
+      destruct (tl (stack (cf_st cf))) as [|t1 r1]; [discriminate|]. cbn [hd] in T2. subst t1. reflexivity.
+    + destruct (y =? 1)%Z eqn:E1.
+      * rewrite E in IH. cbn [tl map] in IH.
+        destruct (tops Y (S k)) as [|t0 [|t1 T2']]; cbn [map] in IH; try discriminate. injection IH as I1 I2 I3.
+        cbn [tl map]. rewrite Ec. f_equal. exact I3.
+      * rewrite E in IH.
+        destruct (tops Y (S k)) as [|t0 T1']; cbn [map] in IH; try discriminate. injection IH as I1 I2.
+        cbn [tl map]. rewrite Ec. f_equal. exact I2.
+Qed.
+
+(** the facts of an S symbol: the next processed corner is the right corner, the entry below the top of the decoder's stack
+    is the left corner *)
+Lemma S_stack_facts k : nth_error Y 0 = Some 7%Z -> k < ns -> nth_error Y k = Some 1%Z ->
+  1 <= k /\ oat opp (next_c (nthQ k)) = Some (nthQ (k - 1)) /\
+  exists ja T, tops Y k = (k - 1) :: ja :: T /\ oat opp (prev_c (nthQ k)) = Some (nthQ ja).
+Proof.
+  intros Y0 Hk Ek. destruct NDP as (N0 & NL & N1).
+  assert (K1 : 1 <= k). { destruct k; [congruence|lia]. }
+  set (i := ns - 1 - k). assert (Hi : i < ns) by (unfold i; lia). assert (Hi' : S i < ns) by (unfold i; lia).
+  assert (Ey : nth i osyms 0%Z = 1%Z). { rewrite (Y_at k Hk) in Ek. inversion Ek. reflexivity. }
+  set (cf := cfi i). set (cf' := cfi (S i)).
+  pose proof (Steps i _ _ (cfi_nth i Hi) (cfi_nth (S i) Hi')) as [T1 T2]. fold cf cf' in T1, T2.
+  pose proof (N1 i _ _ (cfi_nth i Hi) (cfi_nth (S i) Hi')) as E. fold cf cf' in E.
+  assert (Es : hd 0%Z (syms (cf_st cf')) = 1%Z) by (unfold cf'; rewrite sym_at; auto).
+  rewrite Es in E, T2.
+  unfold pushed in E. cbn [Z.eqb Pos.eqb] in E.
+  specialize (T2 (or_intror eq_refl)). rewrite E in T2. cbn [hd] in T2.
+  assert (Ec : cf_corner cf = nthQ k) by (unfold cf, nthQ; rewrite (corner_Q _ Hi); f_equal; unfold i; lia).
+  assert (Ec' : cf_corner cf' = nthQ (k - 1)) by (unfold cf', nthQ; rewrite (corner_Q _ Hi'); f_equal; unfold i; lia).
+  rewrite Ec in T2, E. rewrite Ec' in T2. split; auto. split; auto.
+  assert (Nl : oat opp (prev_c (nthQ k)) <> None).
+  { destruct T1 as [(y' & dead & L1 & _ & L3)|(y' & L1 & L2)].
+    - assert (y' = 1%Z) by (rewrite L1 in Es; exact Es). subst y'. rewrite Ec in L3. apply L3. reflexivity.
+    - rewrite L2 in E. discriminate. }
+  destruct (oat opp (prev_c (nthQ k))) as [lc|] eqn:El; [|congruence].
+  pose proof (tops_stack (k - 1) ltac:(lia)) as TS. cbv zeta in TS.
+  replace (ns - 1 - (k - 1)) with (S i) in TS by (unfold i; lia). replace (S (k - 1)) with k in TS by lia. fold cf' in TS.
+  rewrite E in TS. cbn [length tl map the] in TS.
+  destruct (tops_head' Y k ltac:(unfold Y; rewrite rev_length; fold ns; lia)) as (T0 & ET). rewrite ET in TS |- *. cbn [map] in TS.
+  destruct T0 as [|ja T']; cbn [map] in TS; [discriminate|]. injection TS as L1 L2 L3.
+  exists ja, T'. split; auto.
+Qed.
+End Stk.
+
+(** ** S without split events, one run, every value of remove_invalid_vertices - with it the decoder's vertex compaction runs,
+    [dec_roundtrip_rm] (PARTIAL: the stack discipline [ndp] of the trace is a premise; it is decidable, see [ndp_b]) *)
+Definition is_sym (y : Z) : bool := ((y =? 0) || (y =? 1) || (y =? 3) || (y =? 5) || (y =? 7))%Z.
+Definition class_noev1 (o : enc_out) : bool :=
+  forallb is_sym (o_syms o) && (match o_events o with [] => true | _ => false end) &&
+  (length (o_bits o) =? 1) && (hd 0 (rev (o_syms o)) =? 7)%Z.
+
+Theorem ebsim_roundtrip_noev1_partial c2v opp nf nv niso ndeg o tr rm maxv :
+  length c2v = 3 * nf -> opp_ok c2v opp -> (forall c, c < 3 * nf -> vtx c2v c < nv) -> one_fan c2v opp ->
+  eb_encode_tr c2v opp nv niso ndeg = EOk (o, tr) -> class_noev1 o = true -> ndp opp tr -> (cntv (rev (o_syms o)) <= maxv)%Z ->
+  let F := Z.of_nat (length (o_pcc o)) in
+  exists n s, D.eb_core (3 * F) maxv F rm (rev (o_syms o)) (o_events o) (D.bits_of_list (o_bits o)) = D.Ok (n, s) /\
+              eb_iso c2v opp (o_pcc o) (D.c2v s) (D.copp s).
+Proof.
+  intros Hlen OK Hv FAN Et Cl NDP Hm F.
+  pose proof (trace_refines_big_step_ok _ _ _ _ _ _ _ Et) as E.
+  destruct (trace_coherent _ _ _ _ _ _ _ Et) as [Lt Co].
+  pose proof (trace_steps _ _ _ _ _ _ _ Et) as Steps.
+  unfold class_noev1 in Cl. apply andb_prop in Cl. destruct Cl as [Cl C4]. apply andb_prop in Cl. destruct Cl as [Cl C3].
+  apply andb_prop in Cl. destruct Cl as [Cs C2]. apply Nat.eqb_eq in C3. apply Z.eqb_eq in C4.
+  destruct (o_events o) as [|ev evs'] eqn:Eev; [|discriminate]. clear C2.
+  destruct (encode_facts_wf c2v opp nf nv niso ndeg o Hlen OK Hv FAN E) as (L & ND & Fk & _ & RU & DJ).
+  destruct (eb_encode_total c2v opp nf nv niso ndeg Hlen OK Hv FAN) as [T1 T2].
+  destruct (Nat.eq_dec nf ndeg) as [Eq|Ne]; [rewrite (T1 Eq) in E; discriminate|].
+  destruct (T2 Ne) as (o' & E' & OO & _). rewrite E in E'. inversion E'; subst o'. clear E' T1 T2.
+  destruct OO as (_ & Rng & Comp & _).
+  set (Q := o_pcc o) in *. set (Y := rev (o_syms o)) in *. set (ns := length (o_syms o)) in *.
+  assert (LY : length Y = ns) by (unfold Y; apply rev_length).
+  assert (Rq : forall j, j < length Q -> nth j Q 0 < 3 * nf /\ is_degenerated c2v (nth j Q 0 / 3) = false).
+  { intros j Hj. rewrite Forall_forall in Rng. apply Rng. apply nth_In. auto. }
+  assert (LQ : ns <= length Q) by lia.
+  assert (Hns : 1 <= ns). { destruct Y as [|y0 Y'] eqn:EY; [cbn in C4; discriminate|]. cbn in LY. lia. }
+  assert (Y0 : nth_error Y 0 = Some 7%Z). { destruct Y as [|y0 Y']; [cbn in C4; discriminate|]. cbn in C4 |- *. congruence. }
+  pose proof (tops_stack opp Q (o_syms o) tr Lt Co LQ Steps NDP) as TS.
+  pose proof (S_stack_facts opp Q (o_syms o) tr Lt Co LQ Steps NDP) as SF.
+  fold Y ns in TS, SF.
+  apply (dec_roundtrip_rm c2v opp nf Hlen OK Q Rq ND (3 * F)%Z maxv rm Y eq_refl ltac:(lia) Hm FAN); auto.
+  - intros j Hj. rewrite LY in Hj. destruct (nth_error Y j) as [y|] eqn:Ey; [|apply nth_error_None in Ey; lia].
+    assert (Hy : is_sym y = true). { rewrite forallb_forall in Cs. apply Cs. apply in_rev. eapply nth_error_In; eauto. }
+    destruct (Z.eq_dec y 1) as [->|Ny].
+    + (* S *)
+      destruct (SF j Y0 Hj Ey) as (K1 & Er & ja & T & ET & El).
+      destruct (Fk j 1%Z Ey) as (A & B & C & Dd). cbv zeta in Dd.
+      destruct Dd as [(D1 & _)|[(D1 & _)|[(D1 & _)|[(D1 & _)|(_ & SB)]]]]; try discriminate.
+      unfold script_at. rewrite Ey. right. right. right. right.
+      split; auto. split; auto. split; [exact Er|]. split.
+      { unfold ncr, eco. cbn [rot]. destruct (opp_at opp (nth j Q 0)) as [o0|] eqn:Eo; auto. }
+      split; [exists ja, T; split; [exact ET|exact El]|]. exact SB.
+    + apply (efact_script c2v opp nf Q Y j y); auto; try lia.
+      unfold is_sym in Hy. unfold is_CERL. lia.
+  - (* the start-face phase: one run *)
+    assert (Hl : ns - 1 < ns) by lia.
+    specialize (TS (ns - 1) Hl). cbv zeta in TS. replace (ns - 1 - (ns - 1)) with 0 in TS by lia. replace (S (ns - 1)) with ns in TS by lia.
+    destruct NDP as (N0 & _ & _).
+    assert (E0 : nth_error tr 0 = Some (nth 0 tr (mk_cfg 0 (mk_est [] [] [] 0%Z 0 [] [] [] [] [])))) by (apply nth_error_nth'; lia).
+    rewrite (N0 _ E0) in TS. cbn [tl map] in TS.
+    assert (LT : length (tops Y ns) = 1) by (rewrite <- (map_length (nthQ Q)), TS; reflexivity).
+    apply start_ok_of_idx; auto; rewrite ?LY; [lia|].
+    intros i j Ej Bi.
+      assert (i = 0). { assert (i < length (tops Y ns)) by (apply nth_error_Some; congruence). lia. } subst i.
+      destruct (tops_head' Y ns ltac:(lia)) as (T0 & ET). rewrite ET in Ej. cbn in Ej. inversion Ej; subst j.
+      split; [lia|]. cbn [firstn]. unfold cnt_true at 1. cbn [count_occ].
+      destruct (o_bits o) as [|b0 [|b1 B']] eqn:EB; try (cbn in C3; lia). cbn [nth] in Bi. subst b0.
+      rewrite LY in RU. cbn [rev app] in RU.
+      inversion RU as [|b bits inits inits' P0 Y0' Pn Yn R0 Np Ln Sh Hb Eb1 Eb2 Eb3 Eb4]; subst.
+      inversion R0; subst. rewrite app_nil_r in *.
+      destruct Hb as (ic & Ei & Eo & Ip).
+      assert (Sk : skipn ns Q = [ic]).
+      { apply (f_equal (@rev nat)) in Ei. rewrite rev_involutive in Ei. exact Ei. }
+      exists ic. rewrite Sk. split; [reflexivity|]. split; auto.
+      rewrite Eo. f_equal. rewrite last_nth_nat by auto. rewrite Eb3. f_equal.
+      rewrite firstn_length_le; lia.
+Qed.
+
+Lemma last_nth_gen {A} (l : list A) d : l <> [] -> last l d = nth (length l - 1) l d.
+Proof.
+  induction l as [|a l IH]; [congruence|]. destruct l as [|a' l']; [reflexivity|]. intros _.
+  change (last (a :: a' :: l') d) with (last (a' :: l') d). rewrite IH by discriminate. cbn [length].
+  replace (S (S (length l')) - 1) with (S (S (length l') - 1)) by lia. reflexivity.
+Qed.
+
+(** the executable form of [ndp] *)
+Definition opt_eqb (a b : option nat) : bool :=
+  match a, b with Some x, Some y => x =? y | None, None => true | _, _ => false end.
+Fixpoint stk_eqb (l1 l2 : list (option nat)) : bool :=
+  match l1, l2 with
+  | [], [] => true
+  | a :: r1, b :: r2 => opt_eqb a b && stk_eqb r1 r2
+  | _, _ => false
+  end.
+Lemma stk_eqb_eq l1 : forall l2, stk_eqb l1 l2 = true -> l1 = l2.
+Proof.
+  induction l1 as [|a r1 IH]; intros [|b r2] H; cbn in H; try discriminate; auto.
+  apply andb_prop in H. destruct H as [H1 H2]. f_equal; auto.
+  destruct a, b; cbn in H1; try discriminate; auto. apply Nat.eqb_eq in H1. congruence.
+Qed.
+Fixpoint adj_b (opp : list (option nat)) (tr : list cfg) : bool :=   (* encoding order *)
+  match tr with
+  | cf :: ((cf' :: _) as r) =>
+    stk_eqb (stack (cf_st cf')) (pushed opp (hd 0%Z (syms (cf_st cf'))) (cf_corner cf) (stack (cf_st cf))) && adj_b opp r
+  | _ => true
+  end.
+Definition ndp_b (opp : list (option nat)) (tr : list cfg) : bool :=
+  match tr with
+  | [] => true
+  | cf0 :: _ => stk_eqb (stack (cf_st cf0)) [Some (cf_corner cf0)] &&
+                match tl (stack (cf_st (last tr cf0))) with [] => true | _ => false end && adj_b opp tr
+  end.
+Lemma adj_b_nth opp : forall tr i cf cf', adj_b opp tr = true -> nth_error tr i = Some cf -> nth_error tr (S i) = Some cf' ->
+  stack (cf_st cf') = pushed opp (hd 0%Z (syms (cf_st cf'))) (cf_corner cf) (stack (cf_st cf)).
+Proof.
+  induction tr as [|a tr IH]; intros i cf cf' H E1 E2; [destruct i; discriminate|].
+  destruct tr as [|b tr']; [destruct i; cbn in E2; try discriminate; destruct i; discriminate|].
+  cbn [adj_b] in H. apply andb_prop in H. destruct H as [H1 H2]. destruct i as [|i].
+  - cbn in E1, E2. inversion E1; inversion E2; subst. apply stk_eqb_eq. auto.
+  - apply (IH i); auto.
+Qed.
+Lemma ndp_b_sound opp tr : ndp_b opp tr = true -> ndp opp tr.
+Proof.
+  unfold ndp_b, ndp. destruct tr as [|cf0 r].
+  { intros _. split; [intros cf E; discriminate|]. split; [intros cf E; discriminate|]. intros i cf cf' E; destruct i; discriminate. }
+  intros H. apply andb_prop in H. destruct H as [H H3]. apply andb_prop in H. destruct H as [H1 H2].
+  split; [|split].
+  - intros cf E. cbn in E. inversion E; subst. apply stk_eqb_eq. auto.
+  - intros cf E. assert (X : cf = last (cf0 :: r) cf0).
+    { rewrite nth_error_nth' with (d := cf0) in E by (cbn [length]; lia). inversion E as [E'].
+      rewrite last_nth_gen by discriminate. reflexivity. }
+    rewrite X. destruct (tl (stack (cf_st (last (cf0 :: r) cf0)))); [reflexivity|discriminate].
+  - intros i cf cf'. apply adj_b_nth. auto.
+Qed.
